@@ -42,6 +42,9 @@ class S(rpyc.Service):
     def exposed_ident(self, x):
         return x
 
+    def exposed_v(self, i):
+        return self.kept[i].v
+
 
 def main():
     bad = []
@@ -54,7 +57,7 @@ def main():
             ca.root.keep(a)
             ca.root.keep(b)
             same = ca.root.same(0, 1)
-            vb = sb.kept[1].v
+            vb = ca.root.v(1)
             print("two W instances: arrive as the same object: %s; the second one's .v seen by the peer: %r" % (same, vb))
             if same or vb != "b":
                 bad.append("an object answering ____id_pack__ through __getattr__ denotes another object")
